@@ -62,6 +62,48 @@ func AnchorRules(c *an.Ctx) {
 	anchorTags(c, id+".L4")
 	anchorTplCalls(c, id+".L5")
 	anchorCopies(c, id+".L6", funcs)
+	anchorTplChains(c, id+".L7")
+}
+
+// anchorTplChains: in the anchor templates an if/else-if chain that has both a
+// `.Required` arm and a `.DefaultValue` arm tests `.Required` first: a required
+// element that is absent is an error even when the attribute also declares a
+// default (the default applies to optional elements only; the OpenAPI documents
+// mark the element required on the same flag).
+func anchorTplChains(c *an.Ctx, rule string) {
+	n := 0
+	for _, rel := range anchorTemplates(c) {
+		t, err := c.TplFile(rel)
+		if err != nil {
+			c.Add(an.Obligation{Rule: rule, Construct: rel, Status: an.LOST, Detail: err.Error()})
+			continue
+		}
+		for _, ch := range an.TplIfChains(t) {
+			req, def := -1, -1
+			for i, cond := range ch.Conds {
+				switch strings.TrimSpace(cond) {
+				case ".Required":
+					if req < 0 {
+						req = i
+					}
+				case ".DefaultValue":
+					if def < 0 {
+						def = i
+					}
+				}
+			}
+			if req < 0 || def < 0 {
+				continue
+			}
+			n++
+			if def < req {
+				c.Failf(rule, fmt.Sprintf("%s#chain@%s", rel, strings.Join(ch.Conds, "→")), 0, "%s:%d: the chain tests .DefaultValue before .Required: a required element that is absent silently takes the default instead of being reported missing", rel, ch.Line)
+			}
+		}
+	}
+	if n > 0 {
+		c.Okf(rule, "anchor templates#required before default", "%d if/else-if chains with both arms test .Required before .DefaultValue", n)
+	}
 }
 
 // reviewedCopyGaps: fields the copy constructors of the reference tree leave
